@@ -604,12 +604,12 @@ func runC05(t *testing.T, c *Case) *Outcome {
 
 func init() {
 	register(&Check{ID: "C03", Level: "exploration", Build: "maporder", Gen: genC03, Run: runC03, QuickS: 30, ThoroughS: 480,
-		Rule:   "a case = 1 node, 1-3 subscribers (QoS 1 or 2 subscriptions) each with a per-message response script (acknowledge, stay silent for 1-4 deadlines, wrong packet type, wrong identifier, never, silent on PUBREL) and optional cut/close/DISCONNECT mid-exchange, 1-6 publishes some at the same instant; judged per inbound exchange over the client-observed timeline; non-trivial when >=1 QoS>0 exchange judged; distinct by hash of the scenario",
-		Real:   e1Real, Stub: e1Stub,
+		Rule: "a case = 1 node, 1-3 subscribers (QoS 1 or 2 subscriptions) each with a per-message response script (acknowledge, stay silent for 1-4 deadlines, wrong packet type, wrong identifier, never, silent on PUBREL) and optional cut/close/DISCONNECT mid-exchange, 1-6 publishes some at the same instant; judged per inbound exchange over the client-observed timeline; non-trivial when >=1 QoS>0 exchange judged; distinct by hash of the scenario",
+		Real: e1Real, Stub: e1Stub,
 		Assume: []string{"D = 5.1 s (3 s deadline + 1 s rounding + 1 s sweep + 0.1 s) bounds the gap between transmissions; fault-free network so D is not a timing oracle under faults", "the pool baseline is checked by draining the writer's pool at the end of the run (VerifWriterPool)"}})
 	register(&Check{ID: "C05", Level: "fault_enumeration", Build: "maporder", Gen: genC05, Run: runC05, QuickS: 30, ThoroughS: 480,
-		Rule:   "a case = 1-3 nodes, 1-3 subscribers placed over the nodes, 1-2 publishers sending PUBLISH QoS 0/1/2 with fresh or repeated identifiers, PUBREL (matching, repeated, unknown) and pauses beyond the 3 s handshake deadline, with local append errors and remote failures (fast failure, black hole, lost response) injected before sampled actions; every acknowledgement and every QoS 2 handshake is judged on the globally stamped event order; non-trivial when >=1 acknowledgement or handshake judged; distinct by hash of the scenario",
-		Real:   e1Real, Stub: e1Stub,
+		Rule: "a case = 1-3 nodes, 1-3 subscribers placed over the nodes, 1-2 publishers sending PUBLISH QoS 0/1/2 with fresh or repeated identifiers, PUBREL (matching, repeated, unknown) and pauses beyond the 3 s handshake deadline, with local append errors and remote failures (fast failure, black hole, lost response) injected before sampled actions; every acknowledgement and every QoS 2 handshake is judged on the globally stamped event order; non-trivial when >=1 acknowledgement or handshake judged; distinct by hash of the scenario",
+		Real: e1Real, Stub: e1Stub,
 		Assume: []string{"H(p) is computed from subscriptions that were settled before the publishes", "a lost RPC response makes the outcome of the remote write unknown to the publisher: the acknowledgement may be withheld, clause (b) is not applied", "fault dimension is sampled per action (append error on one node, or one node pair failing), not enumerated as subsets"}})
 }
 
@@ -659,6 +659,30 @@ func judgeIDs(w *world) {
 			spans = append(spans, span{client: id, pid: ex.pid, tag: ex.tag, from: ex.firstAt, to: to, node: cl.node})
 		}
 	}
+	// identifiers the harness holds are outstanding: the broker must not put one on the wire
+	for _, sp := range spans {
+		if sp.node == 0 && w.heldIDs[sp.pid] {
+			w.o.violate("C06", "duplicate-id-in-flight", len(w.c.Steps), endMs, map[string]string{"same_connection": "held"},
+				"identifier %d is outstanding (taken from the pool before the run and never returned) and was handed out for %s to client %d at %dms", sp.pid, sp.tag, sp.client, sp.from)
+			return
+		}
+		if sp.pid < 1 || sp.pid > 65535 {
+			w.o.violate("C06", "id-out-of-range", len(w.c.Steps), endMs, nil, "identifier %d was used for %s to client %d", sp.pid, sp.tag, sp.client)
+			return
+		}
+	}
+	if len(w.heldIDs) > 0 {
+		w.o.probe("runs_with_small_pool")
+		open := 0
+		for _, sp := range spans {
+			if sp.node == 0 && sp.to > endMs {
+				open++
+			}
+		}
+		if int64(open) >= w.c.knob("pool_free", 0) {
+			w.o.probe("pool_exhausted_at_end")
+		}
+	}
 	judged := 0
 	for i := range spans {
 		for j := i + 1; j < len(spans); j++ {
@@ -693,8 +717,8 @@ func judgeIDs(w *world) {
 			}
 			free++
 		}
-		if free != 65535 {
-			w.o.violate("C06", "identifier-leak", len(w.c.Steps), endMs, map[string]string{"sign": fmt.Sprint(free < 65535)}, "every exchange is complete or its session gone, yet the writer's pool has %d free identifiers of 65535", free)
+		if want := 65535 - len(w.heldIDs); free != want {
+			w.o.violate("C06", "identifier-leak", len(w.c.Steps), endMs, map[string]string{"sign": fmt.Sprint(free < want)}, "every exchange is complete or its session gone, yet the writer's pool has %d free identifiers, want %d", free, want)
 		}
 		w.o.probe("pool_baseline_checked")
 	}
@@ -705,6 +729,9 @@ func judgeIDs(w *world) {
 func genC06E1(r *Rand, tier, profile string) *Case {
 	c := genC03(r, tier, profile)
 	c.Profile = "ids"
+	if r.Bool(0.4) {
+		c.Knobs["pool_free"] = int64(r.Range(1, 4))
+	}
 	// more publishes spread over the observation period, so that identifiers are allocated while
 	// earlier exchanges are still waiting for their (late, wrong or missing) acknowledgements
 	var extra []Step
@@ -719,12 +746,32 @@ func genC06E1(r *Rand, tier, profile string) *Case {
 }
 
 func runC06E1(t *testing.T, c *Case) *Outcome {
-	return runE1(t, c, profileHooks{judge: judgeIDs})
+	return runE1(t, c, profileHooks{judge: judgeIDs, onStart: func(w *world) {
+		// "pool_free": the harness itself takes all but k identifiers out of the writer's pool
+		// (as if that many exchanges were open), so that the scenario's handful of slow
+		// subscribers exhausts it
+		k := w.c.knob("pool_free", 0)
+		if k <= 0 {
+			return
+		}
+		pool := wasp.VerifWriterPool(w.nodes[0].writer)
+		if pool == nil {
+			return
+		}
+		w.heldIDs = map[int]bool{}
+		for i := int64(0); i < 65535-k; i++ {
+			id := pool.Get()
+			if id < 1 {
+				break
+			}
+			w.heldIDs[int(id)] = true
+		}
+	}})
 }
 
 func init() {
 	register(&Check{ID: "C06", Variant: "e1", Level: "exploration", Build: "maporder", Gen: genC06E1, Run: runC06E1, QuickS: 20, ThoroughS: 300,
-		Rule:   "system-level variant: the retransmission scenario (subscribers acknowledging late, wrongly or never, for PUBLISH and for PUBREL) with further publishes while exchanges are pending; identifiers of exchanges open at the same time on one node must be pairwise distinct and the writer's pool must drain back to full; non-trivial when >=2 QoS>0 exchanges tracked",
-		Real:   e1Real, Stub: e1Stub,
+		Rule: "system-level variant: the retransmission scenario (subscribers acknowledging late, wrongly or never, for PUBLISH and for PUBREL) with further publishes while exchanges are pending; identifiers of exchanges open at the same time on one node must be pairwise distinct and the writer's pool must drain back to full; non-trivial when >=2 QoS>0 exchanges tracked",
+		Real: e1Real, Stub: e1Stub,
 		Assume: []string{"an exchange holds its identifier from the first PUBLISH until the client's PUBACK/PUBCOMP or the end of its session"}})
 }
